@@ -8,11 +8,15 @@ MaxRules == IF Quick THEN 3 ELSE 4
 \* dup: rules of the same kind are the SAME document (equal titles, names, detections) - distinct
 \* rule objects that compare equal and fail with equal errors must still be accounted one by one
 Repeats(k) == \E i, j \in DOMAIN k : i < j /\ k[i] = k[j]
+\* noteq: the backend renders negation with not-equals expressions of its own (the class templates are swapped inside a NOT)
+NeqKinds == {"ok1", "ok2", "okneg", "failNPH", "failPH"}
+NeqCases == {[kinds |-> k, collect |-> c, corr |-> "none", dup |-> FALSE, noteq |-> TRUE] :
+               k \in UNION {[1..n -> NeqKinds] : n \in 1..3}, c \in BOOLEAN}
 Cases == {[kinds |-> k, collect |-> c, corr |-> co, dup |-> FALSE] :
             k \in UNION {[1..n -> Kinds] : n \in 1..MaxRules}, c \in BOOLEAN, co \in {"none", "nogen", "gen"}}
          \cup {[kinds |-> k, collect |-> c, corr |-> "none", dup |-> TRUE] :
             k \in {kk \in UNION {[1..n -> Kinds] : n \in 2..MaxRules} : Repeats(kk)}, c \in BOOLEAN}
-ASSUME LET S == SetToSeq(Cases) IN ndJsonSerialize(IOEnv.VERIF_OUT, [i \in 1..Len(S) |-> [id |-> i] @@ S[i]])
+ASSUME LET S == SetToSeq({c @@ [noteq |-> FALSE] : c \in Cases} \cup NeqCases) IN ndJsonSerialize(IOEnv.VERIF_OUT, [i \in 1..Len(S) |-> [id |-> i] @@ S[i]])
 Init == x = 0
 Next == UNCHANGED x
 =============================================================================
